@@ -89,6 +89,34 @@ pub struct LspContext {
     responses: Arc<Mutex<Vec<lsp_server::Response>>>,
 }
 
+/// The path of a document the client refers to. `None` for documents that are not files (e.g. `untitled:Untitled-1`):
+/// those cannot be part of a project, so there is nothing to say about them.
+pub(crate) fn document_path(uri: &Url) -> Option<PathBuf> {
+    uri.to_file_path().ok()
+}
+
+/// A line of a file together with the byte offset in it that a position sent by the client refers to: `None` when
+/// there is no such line, and the end of the line when the character lies beyond it, as the protocol prescribes.
+/// The character of a position counts UTF-16 code units.
+pub(crate) fn line_and_offset<'a>(
+    file: &'a mos_core::parser::code_map::File,
+    position: &lsp_types::Position,
+) -> Option<(&'a str, usize)> {
+    let line_idx = position.line as usize;
+    if line_idx >= file.num_lines() {
+        return None;
+    }
+    let line = file.source_line(line_idx);
+    let mut units = 0;
+    for (offset, c) in line.char_indices() {
+        if units >= position.character as usize {
+            return Some((line, offset));
+        }
+        units += c.len_utf16();
+    }
+    Some((line, line.len()))
+}
+
 pub struct LspParsingSource {
     files: HashMap<PathBuf, String>,
 }
@@ -319,10 +347,10 @@ impl LspContext {
         analysis: &'a Analysis,
         pos: &'a TextDocumentPositionParams,
     ) -> Vec<(&'a DefinitionType, &'a Definition)> {
-        analysis.find(
-            pos.text_document.uri.to_file_path().unwrap(),
-            to_line_col(&pos.position),
-        )
+        match document_path(&pos.text_document.uri) {
+            Some(path) => analysis.find(path, to_line_col(&pos.position)),
+            None => vec![],
+        }
     }
 }
 
